@@ -17,6 +17,8 @@ type genFile struct {
 var files = []genFile{
 	{"Numeric.lean", genNumeric},
 	{"NumericSimp.lean", genNumericSimp},
+	{"ConvReg.lean", genConvReg},
+	{"Conv.lean", genConv},
 }
 
 func main() {
